@@ -70,6 +70,11 @@ def scenarios(thorough):
     # a process type added twice (plus distinct ones), labels with a repeated key
     dup = dict(LAUNCH3, processes=LAUNCH3["processes"] + [LAUNCH3["processes"][0], LAUNCH3["processes"][1]], labels=LAUNCH3["labels"] + [["k1", "again"]])
     out.append({"phase": "build", "label": "duplicate-process-types", "script": {"build": {"kind": "pass", "launch": dup, "store": STORE3}}})
+    # the launch configuration set twice on one result builder; two process types both flagged default
+    second = {"processes": [{"type": t, "command": ["second", t], "args": [], "default": False} for t in ("cron", "k1", "web")], "labels": [["k3", "z"], ["k4", "d"]], "slices": [["*.z"]]}
+    out.append({"phase": "build", "label": "launch-set-twice", "script": {"build": {"kind": "pass", "launch": LAUNCH3, "launch2": second, "store": STORE3}}})
+    two_defaults = dict(LAUNCH3, processes=[dict(p, default=p["type"] in ("web", "worker", "cron")) for p in LAUNCH3["processes"]])
+    out.append({"phase": "build", "label": "several-default-processes", "script": {"build": {"kind": "pass", "launch": two_defaults}}})
     # exec.d programs that share one source file (three names, one source), by both APIs
     same_src = {"10-alpha": "p1", "20-beta": "p1", "30-gamma": "p1", "40-other": "p2"}
     out.append({"phase": "build", "label": "execd-shared-source:write_exec_d", "script": {"build": {"kind": "pass", "ops": [{"op": "cached", "name": "a", "launch": True}, {"op": "write_exec_d", "name": "a", "programs": same_src}]}}})
